@@ -779,12 +779,14 @@ func c03Sprints(args []string) error {
 	n, calls := 0, 0
 	var errs []string
 	err = forEachLine(*in, *shard, *nshards, func(i int, data []byte) error {
-		if (i/(*nshards))%*every != 0 {
-			return nil
-		}
 		cs := &c03Case{}
 		if err := json.Unmarshal(data, cs); err != nil {
 			return err
+		}
+		// sampling (quick tier) never drops the few timezone cases: a contact WITHOUT a timezone of its own is the only one
+		// for which the session's environment alone decides calendar-day conditions
+		if (i/(*nshards))%*every != 0 && cs.Mod.Type != "timezone" {
+			return nil
 		}
 		acts := actionsFor(&cs.Mod, 1, 1)
 		if acts == nil {
